@@ -319,7 +319,8 @@ fn comment_prefix(tape: &mut Tape) -> String {
 /// answer must be the one location whose range selects the declaration in mod.oal's text.
 fn check_definition(main_prefix: &str, mod_prefix: &str, r: &mut CaseReport) {
     use crate::lspc::LspError;
-    let main_text = format!("{main_prefix}use \"mod.oal\" as m ;\nlet y = m.x ;\nres / on get -> < y > ;\n");
+    // The use of `x` stands at column 0 of a line of its own.
+    let main_text = format!("{main_prefix}use \"mod.oal\" ;\nlet y =\nx ;\nres / on get -> < y > ;\n");
     let mod_text = format!("{mod_prefix}let x = str ;\n");
     SERVER.with(|cell| {
         let mut cell = cell.borrow_mut();
@@ -342,7 +343,7 @@ fn check_definition(main_prefix: &str, mod_prefix: &str, r: &mut CaseReport) {
         let (dir, lsp) = cell.as_mut().unwrap();
         let (uri, mod_uri) = (dir.uri("main.oal"), dir.uri("mod.oal"));
         dir.write("mod.oal", &mod_text);
-        let at = main_text.find("m.x").unwrap() + 2;
+        let at = main_text.find("\nx ;").unwrap() + 1;
         let pos = crate::lspcheck::pos_of(&main_text, at);
         // The module may be cached from an earlier case: open it with its new text, as an editor would.
         let res = lsp
@@ -368,6 +369,24 @@ fn check_definition(main_prefix: &str, mod_prefix: &str, r: &mut CaseReport) {
                 return;
             }
         };
+        // find-references from the same place: exactly that use, as a range in main's text.
+        let refs = match lsp.position_request("textDocument/references", &uri, pos, json!({"context": {"includeDeclaration": false}})) {
+            Ok(v) => crate::lspcheck::reference_locations(&v),
+            Err(_) => {
+                r.fail(Failure::new("lsp:references", "no answer to a references request".to_owned()));
+                *cell = None;
+                return;
+            }
+        };
+        let want_ref = crate::lspcheck::range_of(&main_text, (at, at + 1));
+        if refs.len() != 1 || refs[0].1 != want_ref || !refs[0].0.ends_with("main.oal") {
+            r.fail(Failure::new(
+                "c16:reference-range",
+                format!("find-references on the use of `x` at the start of a line must answer main.oal {want_ref:?} (which selects `x` in the client's text); the server answers {refs:?}"),
+            ));
+            *cell = None;
+            return;
+        }
         let _ = lsp.did_close(&mod_uri);
         let start = mod_text.find("let x").unwrap();
         let want = crate::lspcheck::range_of(&mod_text, (start, mod_text.rfind(';').unwrap() + 1));
@@ -376,7 +395,7 @@ fn check_definition(main_prefix: &str, mod_prefix: &str, r: &mut CaseReport) {
         if got.len() != 1 || got[0].1 != want || !got[0].0.ends_with("mod.oal") {
             r.fail(Failure::new(
                 "c16:definition-range",
-                format!("go-to-definition on `m.x` must answer mod.oal {want:?} (which selects `let x = str ;` in the text of mod.oal); the server answers {got:?}"),
+                format!("go-to-definition on `x` must answer mod.oal {want:?} (which selects `let x = str ;` in the text of mod.oal); the server answers {got:?}"),
             ));
             *cell = None;
         }
